@@ -367,6 +367,54 @@ SUITE = True   # thorough tier also runs the repository suite with this oracle a
 FAMILIES = [Family("gen-" + kd, gen_case(kd), quick=q, thorough=th)
             for kd, q, th in (("line", 10, 160), ("tri", 28, 640), ("quad", 18, 480), ("tet", 14, 320),
                               ("hex", 12, 240), ("wedge", 4, 64))]
+def composite_basis_case(ctx, k):
+    """A basis combined from two, three or four component bases (b1 * b2 * ...): numbers 0..N-1 without gaps, the
+    blocks of the components disjoint and in the order given, each block the component's own numbering; matrix shape
+    and sparsity follow."""
+    import skfem
+    from skfem.assembly.basis.composite_basis import CompositeBasis
+    rng = ctx.rng()
+    kind = ("tri", "quad", "line", "tet")[k % 4]
+    pool = {"tri": ["ElementTriP2", "ElementTriP1", "ElementTriP0", "ElementTriCR", "ElementTriP1"],
+            "quad": ["ElementQuad2", "ElementQuad1", "ElementQuad0", "ElementQuad1"],
+            "line": ["ElementLineP2", "ElementLineP1", "ElementLineP0", "ElementLineP1"],
+            "tet": ["ElementTetP2", "ElementTetP1", "ElementTetP0", "ElementTetP1"]}[kind]
+    ncomp = 2 + (k // 4) % 3
+    names = [pool[int(i)] for i in rng.choice(len(pool), size=ncomp, replace=True)]
+    mc = G.first_order(rng, kind)
+    mesh = mc.mesh
+    if mesh.t.shape[1] > 30:
+        S = np.sort(rng.choice(mesh.t.shape[1], size=30, replace=False))
+        p, t = G.clean(np.asarray(mesh.p), np.asarray(mesh.t)[:, S].astype(np.int64))
+        mesh = type(mesh)(p, t)
+    b0 = skfem.CellBasis(mesh, EL.by_name(names[0]).make(), intorder=4)
+    comps = [b0] + [b0.with_element(EL.by_name(n).make()) for n in names[1:]]
+    # (the operator form exists for two bases; chaining it nests composite bases, which the constructor refuses)
+    use_op = ncomp == 2 and k % 2 == 0
+    cb = (comps[0] * comps[1]) if use_op else CompositeBasis(*comps)
+    tag = dict(kind=kind, components=names, how="operator-*" if use_op else "constructor", mesh=type(mesh).__name__)
+    N = int(sum(b.N for b in comps))
+    ed = np.asarray(cb.element_dofs)
+    offs = np.concatenate([[0], np.cumsum([b.N for b in comps])])
+    want = np.vstack([np.asarray(b.element_dofs) + offs[i] for i, b in enumerate(comps)])
+    ctx.check("gap-free", int(cb.N) == N and ed.shape == want.shape and np.array_equal(np.unique(ed), np.arange(N)),
+              mech="composite-basis:numbers-not-0..N-1", N=int(cb.N), want=N, unique=int(np.unique(ed).size), **tag)
+    ctx.check("tables-agree-with-rows", ed.shape == want.shape and np.array_equal(ed, want),
+              mech="composite-basis:blocks-not-the-components-in-order", **tag)
+    A = skfem.BilinearForm(lambda *a: sum(np.array(x) for x in a[:ncomp]) * sum(np.array(x) for x in a[ncomp:2 * ncomp])).assemble(cb)
+    ctx.check("matrix-shape", A.shape == (N, N), mech="composite-basis:matrix-shape", shape=A.shape, **tag)
+    allowed = set()
+    for c in range(want.shape[1]):
+        col = want[:, c]
+        allowed.update((int(i), int(j)) for i in col for j in col)
+    A = A.tocoo()
+    extra = {(int(i), int(j)) for i, j, v in zip(A.row, A.col, A.data) if v != 0} - allowed
+    ctx.check("sparsity-inside-cooccurrence", not extra, mech="composite-basis:sparsity", extra=lambda: sorted(extra)[:5], **tag)
+    ctx.reached(f"composite-basis-{min(ncomp, 3)}{'+' if ncomp >= 3 else ''}-components")
+    ctx.nontrivial("composite-basis", kind, tuple(names))
+
+
+FAMILIES.append(Family("composite-basis", composite_basis_case, 24, 480))
 FAMILIES.append(Family("periodic", periodic_case, 12, 240))
 FAMILIES.append(Family("registry", registry_complete, 1, 1))
 REQUIRED_REACH = ["rectangular-assembly", "periodic-topology"]
